@@ -77,6 +77,13 @@ pub enum ReplySpec {
         blocks: Vec<BlockOffer>,
         next: Vec<HeaderOffer>,
     },
+    /// The honest answer with one extra (typically rejected) block inserted at position `at`.
+    HonestPoisoned {
+        max_blocks: u8,
+        max_next: u8,
+        poison: BlockOffer,
+        at: u8,
+    },
     /// A paged reply for one block with an explicit page count (`pages` follow-ups).
     Paged { block: usize, follow_ups: u8, max_next: u8 },
 }
@@ -94,7 +101,8 @@ pub struct ConfigSpec {
 #[derive(Clone, Debug, PartialEq, Eq, Serialize, Deserialize)]
 pub enum ClientOp {
     /// open a pagination session on wallet address `addr` with page size `limit` (0 = real 1000)
-    OpenSession { session: usize, addr: usize, limit: usize },
+    /// (`min_conf`: first request filtered by min_confirmations; follow-ups use the page token)
+    OpenSession { session: usize, addr: usize, limit: usize, #[serde(default)] min_conf: Option<u32> },
     /// request the next page of a session
     NextPage { session: usize },
     /// get_utxos with arbitrary page bytes
